@@ -8,7 +8,10 @@ ASBUILT = {
   `norm` / `make_norm` / `overlap` / `make_overlap` with every subset of the outer labels as explicit `output_inds`,
   and every derivation word of length ≤ 3 over `{H, T, conj}` of a `TNLinearOperator` (dense form, action, rmatvec,
   matmat, trace). Found and fixed: `contract_tags` dropping the exponent, `TNLinearOperator` ignoring the exponent,
-  `trace()` / `astype()` ignoring the conjugation flag (§5).""",
+  `trace()` / `astype()` ignoring the conjugation flag (§5).
+  Third round: degenerate networks (a single tensor, a lone scalar, an outer product — nothing to contract, so the executor may hand
+  back the stored array itself) in every family, and two goals after all routes of `full_contraction`: the network still denotes its
+  value (stored arrays untouched by out-of-place calls) and a repeated `contract(all)` gives it again.""",
 "C02": """* **As built** (`props/c02.py`, one family `scenario`, 56 quick / 361 thorough, 18 s / 4 min): ≤ 6 symbolic index
   labels + ≤ 3 symbolic tags, ≤ 3 tensors (rank ≤ 2), ≤ 3 networks, histories of ≤ 4 operations: hand-picked scenarios
   plus all ordered pairs (quick) / triples (thorough) of a 12-operation core vocabulary on the two-tensor start state.
@@ -39,7 +42,9 @@ ASBUILT = {
   `lower_inds`, … read through the public, cached properties) are part of what is compared between `f(x)` and `f_(copy x)`, the
   copy's caches having been read before the in-place call; operator `align` cases that change the naming scheme; `isel` with
   mixed selector kinds; an exception raised by the library on arguments from the documented domain is a goal failure. Fixed:
-  `measure_(remove=True)` keeping stale cached site properties (§5).""",
+  `measure_(remove=True)` keeping stale cached site properties (§5).
+  Third round: `network_sums_axis_order` — `tensor_network_sum`, `a + b` / `a - b` on arbitrary-geometry vectors and on MPS with the
+  stored axes of **either** operand permuted independently (12 + 10 operand pairs), operands untouched.""",
 "C05": """* **As built** (`props/c05.py`, 123 quick / 411 thorough, 8 s / 2 min): `split_exact` (10 methods × every absorb
   alias × tall / wide / dim-1 bipartitions; product == input and promised isometry, by certificates), `truncation_rule`
   (both `_trim_and_renorm_svd_result` variants on n ≤ 4 (5) *symbolic ordered* singular values, symbolic cutoff, all 6
@@ -161,7 +166,10 @@ ASBUILT = {
   eigenvalues incl. ties, symbolic σ), `partial_dense_select`, dispatch rules with unbounded symbolic `d`, `k`,
   window routes, `autoblock` (every symmetric zero pattern d ≤ 4), wrappers of iterative solvers given *unordered
   symbolic solver answers* (the ARPACK/LOBPCG insides are not entered), `wrapper_return_conventions`. Fixed: 5
-  defects (§5).""",
+  defects (§5).
+  Third round: `lazy_scaling_algebra` — a `Lazy` operator denotes (product of all its scalings) · `fn()` for every history of ≤ 3
+  scalings from {`factor=`, `*=`, `L * x`, `x * L`} with symbolic complex factors; out-of-place forms leave the receiver's denotation
+  unchanged.""",
 "C18": """* **As built** (`props/c18.py`, sub-agent + review; 49 quick): solve / expm / integrate set-up with symbolic
   Hermitian H, symbolic times and time sequences; the exponential is an uninterpreted function with the group law.
   Fixed: one-sided `expm` evolution of density operators, dense 2×2 `solve` crash (§5). ODE stepping is outside.""",
